@@ -77,6 +77,10 @@ class _Future(Future):
                     return False
             finally:
                 self._me_cancelling = False
+            if self.cancelled():
+                # a callback of the work we just cancelled has re-entered cancel()
+                # on this thread and completed it already
+                return True
             out = super(_Future, self).cancel()
             if out:
                 self.set_running_or_notify_cancel()
